@@ -421,6 +421,10 @@ func redactPipelineStage(stage interface{}, redactFieldNames bool, keyPath []str
 						redactedArr := make([]any, len(arr))
 						for i, elem := range arr {
 							redactedArr[i] = redactPipelineStage(elem, redactFieldNames, newKeyPath, inSearchStage)
+							if !isContainer(elem) {
+								// a literal operand (e.g. {$and: ["$a", "x"]}) is redacted like any array item
+								redactedArr[i] = redactArrayValues([]any{elem}, redactFieldNames, inSearchStage, false, newKeyPath)[0]
+							}
 						}
 						newMap.Set(redactedKey, redactedArr)
 					} else {
@@ -483,6 +487,9 @@ func redactPipelineStage(stage interface{}, redactFieldNames bool, keyPath []str
 										redactedArr := make([]any, len(arr))
 										for i, elem := range arr {
 											redactedArr[i] = redactPipelineStage(elem, redactFieldNames, newKeyPath, inSearchStage)
+											if !isContainer(elem) {
+												redactedArr[i] = redactArrayValues([]any{elem}, redactFieldNames, inSearchStage, false, newKeyPath)[0]
+											}
 										}
 										newSubMap.Set(subK, redactedArr)
 									} else {
@@ -726,6 +733,15 @@ func redactScalarValue(keyPath []string, v interface{}, isSearchStage bool, isSe
 	default:
 		return redactedString
 	}
+}
+
+// isContainer reports whether v is a document or an array (as opposed to a scalar literal).
+func isContainer(v interface{}) bool {
+	switch v.(type) {
+	case *orderedmap.OrderedMap[string, any], []any:
+		return true
+	}
+	return false
 }
 
 func isInSearchStage(stage interface{}) bool {
